@@ -197,7 +197,7 @@ def oracle_conditional(rng):
     import sageopt.coniclifts.constraints.set_membership.sage_cones as sc
     from sageopt.relaxations import sage_sigs as ss
     n = rng.randint(1, 2)
-    kind = rng.choice(['box', 'eq_box', 'eq_box', 'eq_box', 'mixed', 'ball', 'negbox', 'negbox'])
+    kind = rng.choice(['box', 'eq_box', 'eq_box', 'eq_box', 'mixed', 'ball', 'negbox', 'negbox', 'expcone', 'expcone'])
     X, _ = sagecorr.make_domain(rng, n, kind)
     rows = []
     while len(rows) < rng.randint(1, 4):
@@ -227,7 +227,9 @@ def oracle_conditional(rng):
                     try:
                         vals[(form, pre)] = ss.sig_relaxation(f, X, form=form).solve(verbose=False)
                     except RuntimeError as e:
-                        vals[(form, pre)] = ('error', ' '.join(str(e).split())[:80])
+                        msg = ' '.join(str(e).split())
+                        # a constructor that refuses the SAGE constraint as infeasible says the same as a solve returning -inf
+                        vals[(form, pre)] = ('solved', -math.inf) if 'infeasible' in msg else ('error', msg[:80])
     finally:
         sc.SETTINGS.clear()
         sc.SETTINGS.update(saved)
@@ -239,6 +241,10 @@ def oracle_conditional(rng):
         a, b = vals[('primal', pre)], vals[('dual', pre)]
         if a[0] == b[0] == 'solved' and math.isfinite(a[1]) and math.isfinite(b[1]) and a[1] > b[1] + 1e-4 * (1 + abs(b[1])):
             return 'primal bound %r exceeds dual bound %r (presolve=%s); %s' % (a[1], b[1], pre, desc)
+        # at most one negative term: SAGE is exact in both forms, so the two values coincide
+        if a[0] == b[0] == 'solved' and math.isfinite(a[1]) and math.isfinite(b[1]) and not close(a[1], b[1], 1e-3):
+            return ('primal bound %r and dual bound %r of a signomial with at most one negative term differ (presolve=%s); %s'
+                    % (a[1], b[1], pre, desc))
     for form in ('primal', 'dual'):
         a, b = vals[(form, False)], vals[(form, True)]
         if a[0] == b[0] == 'solved' and isinstance(a[1], float) and isinstance(b[1], float) and not close(a[1], b[1], 1e-4):
